@@ -38,6 +38,9 @@ CHECKS = {
  "C07": dict(level="exploration", technique="exhaustive enumeration of each code's complete Unicode tables x token contexts, and of terms x highlight styles x node ids followed by position queries; oracle checks the output alphabet",
              text="Every key (every member of every range) of the six codes' unicode.yaml/unicode-full.yaml (42k character cases) and all mathvariants x token classes; terms of the grammar with author ids x 4 highlight styles x {no node, unknown node, root, each author id}, then node-from-braille in and out of range and the requests repeated: cell codes emit only U+2800-28FF and no dots 7-8 unless a known node is highlighted; text codes emit printable text without internal markers; non-empty iff visible content.",
              note="Pass-through of characters a code does not define and expressions using elements the code's rule file has no rule for are outside the guarantee (both decided from the rule files at run time). Cells with dots 7-8 that the rule file itself writes as content (Nemeth line separator) are not highlight.", design="§4 C07"),
+ "C13": dict(level="exploration", technique="exhaustive enumeration of terms x languages x engines x preference sets (each alone, all, thorough: every pair); tokenizer/stack checker plus differential word comparison against engine none",
+             text="Terms of the grammar, trigger terms and capital/chemistry/long-row terms under SSML and SAPI5 in en/es/sv (thorough: all 8 languages) with every rate/pitch/volume/pause/math-rate/capital/beep/bookmark preference varied alone, all together and (thorough) pairwise: tags must be of the engine's vocabulary, properly nested and closed, with valid attribute syntax and numeric values; tag-stripped words must equal the engine-free words of the same session; bookmarks must name ids of the expression.",
+             note="Word comparison ignores white space and pause punctuation and reads 'eigh' as the letter a.", design="§4 C13"),
 }
 PENDING = {}
 
